@@ -1284,6 +1284,9 @@ fn run(seed: u64, thorough: bool) -> Report {
     }
     check_rejected_chains(&mut rep);
 
+    // I, random part: longer fragment sequences
+    fstext::run_random(&mut rep, &mut drv, &mut p, thorough);
+
     // C. literals
     known_witnesses(&mut rep, &mut drv);
     let n = if thorough { 3000 } else { 260 };
